@@ -24,7 +24,7 @@ PROP = dict(
     rule="1-5 vehicles with feasible tours of 0-6 activities over one metric matrix, 1-6 unassigned single-task candidate jobs, in a third of the cases plus 2-5 multi-task (pickup-then-delivery) candidates interleaved; the real "
          "PositionInsertionEvaluator::evaluate_all (Exhaustive, BestResultSelector) inside rayon pools of 1,2,3,4,8,16 threads, 3 repeats each, "
          "and a sequential scan of unpruned eval_job_insertion_in_route calls for every (route, job). Non-trivial: at least two successes "
-         "with different costs. Corpus: two non-metric cases (known finding S9, out of hypothesis). Distinct = SHA-256 of the canonical input",
+         "with different costs. Corpus: two non-metric cases (known finding S9, out of hypothesis). Distinct = SHA-256 of the canonical input Every fourth work list is evaluated under the heuristic goal (known_edge objective) on a solution carrying a footprint (pair costs traced). Stream swapstar (40 instances): ExchangeSwapStar::explore under seven pool layouts, twice each, must give one outcome.",
     modelled="rosomaxa::utils::parallel::fold_reduce (rayon fold+reduce contract as all split trees), cartesian_product work list, "
              "InsertionResult::choose_best_result, the alternative pruning of eval_job_insertion_in_route, and (from C06) the cost of every "
              "(route, job) pair",
